@@ -404,7 +404,7 @@ impl World {
             }
         }
         let act = Actual { ok: act_ok, panic: panic.clone(), responses: act_resps, trace };
-        let pred = Pred { last_fail: it.last_fail.clone(), ever_written: it.ever_written.clone(), fail_before: std::mem::take(&mut it.fail_before), ok: pred_res.is_ok(), responses: pred_resps, trace: std::mem::take(&mut it.trace), whys: std::mem::take(&mut it.whys), failures: it.failures, caught: it.caught, sites: it.sites.clone() };
+        let pred = Pred { funded_fail_before: std::mem::take(&mut it.funded_fail_before), last_fail: it.last_fail.clone(), ever_written: it.ever_written.clone(), fail_before: std::mem::take(&mut it.fail_before), ok: pred_res.is_ok(), responses: pred_resps, trace: std::mem::take(&mut it.trace), whys: std::mem::take(&mut it.whys), failures: it.failures, caught: it.caught, sites: it.sites.clone() };
         let _ = helper_note;
 
         // ---- model-free: all-or-nothing
